@@ -296,6 +296,14 @@ func parseClauseLine(fs *FuncSpec, l string) error {
 			}
 			ls.Increases = &Clause{Text: strings.TrimSpace(parts[0]), Node: en}
 			ls.Upto = &Clause{Text: strings.TrimSpace(parts[1]), Node: bn}
+		case strings.HasPrefix(body, "continues only if "):
+			// a condition that holds whenever the loop body reaches its back edge (e.g. "the mapper did not answer")
+			txt := strings.TrimSpace(body[len("continues only if "):])
+			n, err := parseSpec(txt)
+			if err != nil {
+				return err
+			}
+			ls.ContinueIf = append(ls.ContinueIf, &Clause{Label: fmt.Sprint(len(ls.ContinueIf) + 1), Text: txt, Node: n})
 		case strings.HasPrefix(body, "modifies "):
 			for _, a := range strings.Split(body[9:], ",") {
 				ls.Mods = append(ls.Mods, strings.TrimSpace(a))
